@@ -1,5 +1,5 @@
 ENTRY = dict(
-    runner="C15", pkg="./cmd/c15", corr=["Corr.C15Corr"], n=dict(quick=160, thorough=2500),
+    runner="C15", pkg="./cmd/c15", corr=["Corr.C15Corr"], n=dict(quick=90, thorough=1500),
     runner_timeout=1500,
     rule="(a) end to end: a utls ECH server (Config.EncryptedClientHelloKeys) over loopback TCP x HelloGolang and every "
          "predefined ClientHelloID whose spec carries an EncryptedClientHelloExtension (found at run time) x {accept, accept "
